@@ -31,7 +31,8 @@ FOCUSED_QUICK = [("MC_Programs_calls6", [None, {"t": "int", "v": 5}]),
                  ("MC_Programs_arith5", [None]),
                  ("MC_Programs_seqs4", [{"t": "int", "v": 5}]),
                  ("MC_Programs_slices7", [LIST4]),
-                 ("MC_Programs_partial5", [{"t": "int", "v": 5}])]
+                 ("MC_Programs_partial5", [{"t": "int", "v": 5}]),
+                 ("MC_Programs_casts7q", [LIST4])]
 FOCUSED_THOROUGH = [("MC_Programs_calls8", [None, {"t": "int", "v": 5}]),
                     ("MC_Programs_conds6", [None, {"t": "int", "v": 5}, progs.INPUTS[3]]),
                     ("MC_Programs_chains7", [None, {"t": "int", "v": 5}]),
@@ -39,7 +40,8 @@ FOCUSED_THOROUGH = [("MC_Programs_calls8", [None, {"t": "int", "v": 5}]),
                     ("MC_Programs_arith5", [None, {"t": "int", "v": 5}]),
                     ("MC_Programs_seqs5", [None, {"t": "int", "v": 1}]),
                     ("MC_Programs_slices7w", [LIST4]),
-                    ("MC_Programs_partial6", [None, {"t": "int", "v": 5}])]
+                    ("MC_Programs_partial6", [None, {"t": "int", "v": 5}]),
+                    ("MC_Programs_casts6", [None, LIST4]), ("MC_Programs_casts7", [LIST4])]
 
 
 def corpus(out, tier, seed, wd, trace=False, extra=None, light=False):
